@@ -131,6 +131,18 @@ NextW == \E kind \in SimpleKinds \cup {"flowmod", "groupmod", "pktout", "mpflow"
             \/ \E np \in 1..2 :            \* with experimenter properties: the bundled message is then padded to 8 bytes
                  /\ c' = <<kind, np, tag>>
                  /\ Emit("W", BundleAddPropsEl("m", inner, np, tag), <<inner>>)
+\* pipelined messages: three messages are built and encoded one after the other before any of them is "sent" (a controller batching
+\* requests); every encoding that was handed out must still be intact at the end (the harness compares each returned byte string
+\* with the copy it took when it was returned)
+PLSeq == <<"echoreq", "echorep", "featreq", "confreq", "barrier", "hello", "hello3e", "setconfig", "portmod", "setctrlid", "tlvreq",
+           "desc", "flow", "aggregate", "table", "portdesc", "flowmod", "groupmod", "pktout", "tlvmod", "bundlectrl", "bundleadd">>
+PLMsg(kind, n, tag) == IF kind \in MpKinds THEN MpReqEl(n, kind, <<>>, tag) ELSE InnerMsg(kind, n, tag)
+NextPL == \E i \in DOMAIN PLSeq, j \in DOMAIN PLSeq, tag \in Tags :
+            LET m1 == PLMsg(PLSeq[i], "p1", tag)  m2 == PLMsg(PLSeq[j], "p2", tag + 40)  m3 == PLMsg(PLSeq[i], "p3", tag + 80)
+                top == [n |-> m3.n, tree |-> m3.tree, ops |-> m1.ops \o m2.ops \o m3.ops] IN
+            /\ Sel(i * 3 + j)
+            /\ c' = <<i, j, tag>>
+            /\ EmitK("PL", top, <<m1, m2>>, <<>>)
 NextO == \E p1 \in BOOLEAN, p2 \in BOOLEAN, p3 \in BOOLEAN, n \in 1..3, kind \in {"apply", "write"}, tag \in Tags :
             LET ps == <<p1, p2, p3>>
                 adds == [i \in 1..n |-> <<LeafAct("a" \o ToString(i), (<<"output", "note3", "regload", "setfield">>)[1 + ((i + tag) % 4)], tag + 11 * i), ps[i]>>] IN
@@ -179,6 +191,14 @@ NextN == \E tag \in Tags :
            \/ \E len \in 0..17 :
                 /\ c' = <<"note", len, tag>>
                 /\ LET a == NoteEl("a1", len, tag) IN Emit("N", ActSeqIn("apply", "m", <<a, LeafAct("a2", "group", tag)>>, tag), <<a>>)
+           \/ \E k \in 1..NMF :         \* two actions holding a field of the same kind with different values, both alive before anything is encoded
+                /\ c' = <<"samefield", k, tag>>
+                /\ LET f1 == MF("f1", k, tag, FALSE)  f2 == MF("f2", k, tag + 33, FALSE)
+                       a == El("a1", [T |-> "NXActionRegLoad2", DstField |-> f1.tree], <<>>)
+                       b == El("a2", [T |-> "NXActionRegLoad2", DstField |-> f2.tree], <<>>)
+                       acts == <<[a EXCEPT !.ops = f1.ops \o f2.ops \o <<New("a1", "NewNXActionRegLoad2", <<Ref("f1")>>)>>],
+                                 [b EXCEPT !.ops = <<New("a2", "NewNXActionRegLoad2", <<Ref("f2")>>)>>]>> IN
+                   Emit("N", ActSeqIn("apply", "m", acts, tag), acts)
            \/ \E len \in {6, 14, 22}, z \in {1, 7, 8, 14} :
                 /\ z <= len
                 /\ c' = <<"notez", len, z, tag>>
@@ -257,7 +277,7 @@ NextR == \E i \in 1..Count :
 Init == c = <<>>
 Next == c = <<>> /\ CASE Family = "A1" -> NextA1 [] Family = "A2" -> NextA2 [] Family = "M1" -> NextM1 [] Family = "M2" -> NextM2
                       [] Family = "MR" -> NextMR [] Family = "I" -> NextI [] Family = "G" -> NextG [] Family = "S" -> NextS
-                      [] Family = "W" -> NextW [] Family = "O" -> NextO [] Family = "P" -> NextP [] Family = "B" -> NextB
+                      [] Family = "PL" -> NextPL [] Family = "W" -> NextW [] Family = "O" -> NextO [] Family = "P" -> NextP [] Family = "B" -> NextB
                       [] Family = "L" -> NextL [] Family = "N" -> NextN [] Family = "T" -> NextT [] Family = "R" -> NextR
 Spec == Init /\ [][Next]_c
 =============================================================================
